@@ -55,7 +55,11 @@ FlattenSeqs(ss) == FoldLeft(LAMBDA acc, s : acc \o s, <<>>, ss)
 SlotVals(q, W, k, env) ==
   IF k <= NVars(q)
   THEN LET v == q.vars[k]
-           d == SelectSeq(v.dom, LAMBDA o : IsInst(W, o, v.cls))
+           \* a variable whose domain is itself a query - let(T, domain=an(entity(b, c))) - ranges over that query's
+           \* solutions: the members of the list that satisfy c (domc, a condition on the variable itself)
+           InDom(o) == "domc" \notin DOMAIN v
+                       \/ Holds(v.domc, [i \in 1..NSlots(q) |-> IF i = k THEN ObjV(o) ELSE NoneV], q, W)
+           d == SelectSeq(v.dom, LAMBDA o : IsInst(W, o, v.cls) /\ InDom(o))
        IN [i \in 1..Len(d) |-> ObjV(d[i])]
   ELSE Elems(Val(q.flats[k - NVars(q)], env, q, W))
 
